@@ -45,7 +45,7 @@ def main():
         meta["ran"].append("go test -run %s %s (clean copy): rc=%d" % (testname, " ".join(race), rc))
         os.remove(os.path.join(d, demoname))
         # 2. patch applies, repo tests pass
-        rc, out = sh(["git", "apply", "--whitespace=nowarn", patch], d)
+        rc, out = sh(["git", "apply", "--whitespace=nowarn", "--include=*.go", "--include=go.mod", "--include=go.sum", patch], d)
         if rc != 0:
             print("patch does not apply:", out)
             return 2
